@@ -58,7 +58,7 @@ class FnC:
 class Sel:
     """selects one item of a source file"""
 
-    def __init__(self, anchor, fns=None, members='', inside=None, pre='', drop_fns=(), rest='external'):
+    def __init__(self, anchor, fns=None, members='', inside=None, pre='', drop_fns=(), rest='verify', rest_props=()):
         self.anchor = anchor
         self.fns = dict(fns or {})
         self.members = members
@@ -66,6 +66,7 @@ class Sel:
         self.pre = pre
         self.drop_fns = tuple(drop_fns)
         self.rest = rest
+        self.rest_props = tuple(rest_props)
 
 
 class Mod:
@@ -655,6 +656,11 @@ def gen_mod(mod, sources):
                     if fc is None and m.body:
                         if sel.rest == 'external':
                             fc = FnC(external_body=True, note='not under contract')
+                        else:
+                            # a method the contract files do not know (e.g. newly added override of a
+                            # default method): verified against whatever the shim trait demands of it
+                            fc = FnC(inherits=True, props=sel.rest_props,
+                                     note='no contract file: checked against the inherited trait contract only')
                     splice_fn(em, toks, m, fc, ctx, ex.marks)
                     orig = [o for o in it.members if o.kind == 'fn' and o.name == m.name][0]
                     ex.functions.append({
